@@ -36,21 +36,80 @@ def used_kinds(F):
     return out
 
 
-def inner_loops(F):
-    h = F.hir[UN]
+def count_loops(n):
+    c = [0]
+
+    def walk(x):
+        if isinstance(x, dict):
+            if x.get('k') == 'Loop':
+                c[0] += 1
+            for v in x.values():
+                walk(v)
+        elif isinstance(x, list):
+            for v in x:
+                walk(v)
+    walk(n)
+    return c[0]
+
+
+def worklist_host(F):
+    """the function that contains the fixpoint loop of the reachability computation: Used::new itself, or a helper in the
+    same file that it was moved into.  Found by shape: a loop at statement level that contains one loop per worklist."""
+    from heval import file_of
+    from mirinline import callee_of
+    home = file_of(F, UN)
+    cands = [UN]
+    seen = {UN}
+    frontier = [UN]
+    for _ in range(3):
+        nxt = []
+        for p in frontier:
+            for q, body in F.mir.items():
+                if q != p and not q.startswith(p + '::{closure'):
+                    continue
+                for blk in body['blocks']:
+                    t = blk['term']
+                    if t.get('t') == 'Call':
+                        c = callee_of(t)
+                        if c and c in F.hir and c not in seen and file_of(F, c) == home:
+                            seen.add(c)
+                            cands.append(c)
+                            nxt.append(c)
+        frontier = nxt
+    for c in cands:
+        for s_ in F.hir[c]['body'].get('stmts', []) + ([F.hir[c]['body']['expr']] if F.hir[c]['body'].get('expr') else []):
+            e = s_.get('e', s_) if s_.get('k') == 'Semi' else s_
+            if e.get('k') == 'Loop' and count_loops(e) >= 4:
+                return c
+    return None
+
+
+def inner_loops(F, host=None):
+    host = host or UN
+    h = F.hir[host]
     body = h['body']
-    mod_id = h['params'][0]['id']
+    mod_id = stack_id = None
+    for prm in h['params']:
+        ty = prm.get('ty') or ''
+        if prm.get('k') != 'Bind':
+            continue
+        if 'module::Module' in ty:
+            mod_id = prm['id']
+        elif 'Roots' in ty:
+            stack_id = prm['id']
     lets = [s for s in body['stmts'] if s['k'] == 'Let' and s['pat'].get('k') == 'Bind']
-    stack_id = lets[0]['pat']['id']
+    if stack_id is None:
+        stack_id = lets[0]['pat']['id']
     outer = None
     pre = []
     post = []
-    for s in body['stmts']:
-        e = s.get('e', s) if s['k'] == 'Semi' else s
+    stmts = list(body['stmts']) + ([body['expr']] if body.get('expr') else [])
+    for s in stmts:
+        e = s.get('e', s) if s.get('k') == 'Semi' else s
         if e.get('k') == 'Loop' and outer is None:
             outer = e
             continue
-        if s['k'] == 'Let':
+        if s.get('k') == 'Let':
             continue
         (pre if outer is None else post).append(e)
     inner = []
@@ -149,8 +208,12 @@ def run(ctx):
         res.error('anchor lost: passes::used::Used / Used::new')
         return res
     tracked = set(kinds)
+    host = worklist_host(F)
+    if host is None:
+        res.error('the reachability computation has no recognisable worklist loop (Used::new and the helpers next to it)')
+        return res
     try:
-        mod_id, stack_id, pre, outer, inner, post = inner_loops(F)
+        mod_id, stack_id, pre, outer, inner, post = inner_loops(F, host)
     except Exception as e:
         res.error('Used::new does not have the roots / worklist-loop shape: %r' % (e,))
         return res
@@ -184,7 +247,7 @@ def run(ctx):
             continue
         node = loops_by_kind[kind]
         try:
-            worlds = ev.run_node(UN, node, env)
+            worlds = ev.run_node(host, node, env)
         except EvalError as e:
             res.error('worklist loop for %s not analysable: %s' % (short, e))
             continue
@@ -267,7 +330,7 @@ def run(ctx):
                 res.ok(key, {'position': short + show_path(path), 'delegated_to': 'dfs_in_order::<UsedVisitor>'})
             else:
                 res.bad(key, 'function bodies are not traversed with the UsedVisitor')
-    check_roots(F, res, ev, env, pre, post, tracked, prefix=prefix_stmts(F))
+    check_roots(F, res, ev, env, pre, post, tracked, prefix=prefix_stmts(F), host=host, prim=prim)
     res.exhaustive = True
     return res
 
@@ -280,38 +343,38 @@ def offset_reffunc(path):
 
 
 def offsets_are_numeric(F):
-    """re-derived: both segment parsers match the evaluated offset and bail in the catch-all arm"""
+    """re-derived on the worlds of both segment parsers: no successful path keeps an offset expression that is anything
+    but a constant value or a global read (a `ref.func` / `ref.null` offset is rejected), however the check is written"""
+    import flowlib as fl
+    from flowlib import worlds_of
+    pol = fl.policy(no_inline=('const_expr::ConstExpr::eval', 'const_expr::ConstExpr::to_wasmencoder_type'))
     okk = 0
-    for fn in ('module::data::<impl module::Module>::parse_data', 'module::elements::<impl module::Module>::parse_elements'):
-        h = F.hir.get(fn)
-        if not h:
+    for fn in ('parse_data', 'parse_elements'):
+        try:
+            _, ws = worlds_of(F, fn, [sym('self'), sym('section'), sym('ids')], pol, key='edges-offsets')
+        except (EvalError, KeyError):
             return False
-        found = [0, 0]
-
-        def has_ret(n):
-            if isinstance(n, dict):
-                if n.get('k') == 'Ret':
-                    return True
-                return any(has_ret(v) for v in n.values())
-            if isinstance(n, list):
-                return any(has_ret(v) for v in n)
-            return False
-
-        def walk(n):
-            if isinstance(n, dict):
-                if n.get('k') == 'Match' and n['scrut'].get('k') == 'Path' and n['scrut'].get('name') == 'offset':
-                    found[0] += 1
-                    arms = n['arms']
-                    if arms and arms[-1]['pat']['k'] == 'Wild' and has_ret(arms[-1]['body']) and \
-                            all(a['pat'].get('variant') in ('Value', 'Global') for a in arms[:-1]):
-                        found[1] += 1
-                for v in n.values():
-                    walk(v)
-            elif isinstance(n, list):
-                for v in n:
-                    walk(v)
-        walk(h['body'])
-        if found[0] >= 1 and found[0] == found[1]:
+        saw_numeric = False
+        bad = False
+        for w in ws:
+            v = w.value
+            is_ok = w.outcome == 'return' and isinstance(v, tuple) and v and v[0] == 'ctor' and v[2] == 'Ok'
+            for k, val in w.assumptions:
+                if isinstance(k, tuple) and k and k[0] == 'atom':
+                    continue
+                if not (isinstance(val, tuple) and val and val[0] == 'ctor' and val[1].endswith('ConstExpr')):
+                    continue
+                sk = show(k)
+                # the evaluated *offset* expression of an active segment (not an element item)
+                if 'eval(' not in sk or 'offset_expr' not in sk and 'offset' not in sk:
+                    continue
+                if 'items' in sk or 'elem(elem(' in sk:
+                    continue
+                if val[2] in ('Value', 'Global'):
+                    saw_numeric = saw_numeric or is_ok
+                elif is_ok:
+                    bad = True
+        if saw_numeric and not bad:
             okk += 1
     return okk == 2
 
@@ -340,7 +403,7 @@ KIND_OF_EXPORT = {'Function': 'module::functions::Function', 'Table': 'module::t
                   'Memory': 'module::memories::Memory', 'Global': 'module::globals::Global'}
 
 
-def check_roots(F, res, ev, env, pre, post, tracked, prefix=None):
+def check_roots(F, res, ev, env, pre, post, tracked, prefix=None, host=None, prim=()):
     """documented roots: exports, start, active data, active elements of imported tables, declared elements, custom sections.
     Everything before the worklist loop (initialisers included, helpers looked through) is evaluated as one block; each
     push is classified from its own argument and from the conditions on the element it was taken from."""
@@ -349,8 +412,28 @@ def check_roots(F, res, ev, env, pre, post, tracked, prefix=None):
     h = F.hir[UN]
     block = {'k': 'Block', 'stmts': list(prefix or []), 'l': h['body'].get('l')}
     env0 = {k: v for k, v in env.items() if v == sym('module')}
+    post_worlds = None
     try:
-        worlds = ev.run_node(UN, block, env0)
+        if host in (None, UN):
+            worlds = ev.run_node(UN, block, env0)
+        else:
+            # the fixpoint lives in a helper: evaluate all of Used::new with that helper kept as one opaque step; what is
+            # pushed before it are the roots, what is retained after it is the residue
+            pol2 = Policy(effects=lambda p: p in prim or p == host or bool(re.search(r'HashSet::insert$|dfs_in_order$|add_gc_roots$', p)),
+                          inline=lambda p: not (p in prim or p == host or 'dfs_in_order' in p))
+            allw = Evaluator(F, pol2).run_fn(UN, [sym('module')])
+            worlds, post_worlds = [], []
+            for w in allw:
+                cut = [i for i, e in enumerate(w.trace) if e['kind'] == 'call' and e['callee'] == host]
+                if not cut:
+                    worlds.append(w)
+                    continue
+                import copy
+                w1, w2 = copy.copy(w), copy.copy(w)
+                w1.trace = w.trace[:cut[0]]
+                w2.trace = w.trace[cut[-1] + 1:]
+                worlds.append(w1)
+                post_worlds.append(w2)
     except EvalError as e:
         res.error('root statements of Used::new not analysable: %s' % e)
         worlds = []
@@ -421,12 +504,16 @@ def check_roots(F, res, ev, env, pre, post, tracked, prefix=None):
     for x in extra:
         res.bad('roots/extra/' + re.sub(r'\W+', '_', x)[:60], 'undocumented GC root: ' + x)
     # post-loop: the documented memory residue only
-    for node in post:
-        try:
-            worlds = ev.run_node(UN, node, env)
-        except EvalError as e:
-            res.error('post-closure statement at line %s not analysable: %s' % (node.get('l'), e))
-            continue
+    post_groups = []
+    if post_worlds is not None:
+        post_groups.append(post_worlds)
+    else:
+        for node in post:
+            try:
+                post_groups.append(ev.run_node(UN, node, env))
+            except EvalError as e:
+                res.error('post-closure statement at line %s not analysable: %s' % (node.get('l'), e))
+    for worlds in post_groups:
         for w in worlds:
             for e in w.trace:
                 if e['kind'] == 'call' and (e['callee'].endswith('HashSet::insert') or 'Roots::push_' in e['callee']):
